@@ -21,11 +21,16 @@ func main() {
 	replay := flag.String("replay", "", "replay one script/replay file")
 	noTwin := flag.Bool("no-twin", false, "monitors only (the twin does not build)")
 	scale := flag.Float64("scale", 0, "multiply the number of generated cases")
+	worker := flag.Bool("worker", false, "serve generation/execution requests on stdin (child of a corr run)")
 	flag.Parse()
 	p, ok := props.All[*prop]
 	if !ok {
 		fmt.Fprintf(os.Stderr, "corr: no correspondence registered for %s\n", *prop)
 		os.Exit(2)
+	}
+	if *worker {
+		fw.WorkerMain(p)
+		return
 	}
 	res, err := fw.Run(p, fw.Opts{Tier: *tier, Seed: *seed, OraclePath: *orc, VerifDir: *dir, ReplayFile: *replay, NoTwin: *noTwin, Scale: *scale})
 	if err != nil {
